@@ -304,6 +304,18 @@ func c06ReuseCases() []c06Reuse {
 			func(db *gorm.DB, x int) *gorm.DB { return sess(db.Joins("Company").Where("owners.id > ?", x)) },
 			func(h, root *gorm.DB) { var o Owner; h.First(&o) },
 			func(h, root *gorm.DB) { var os []Owner; h.Find(&os) }},
+		{"preload-scope-and-inline-find-twice",
+			// a scope function followed by inline conditions among the Preload arguments
+			func(db *gorm.DB, x int) *gorm.DB {
+				return sess(db.Preload("Pets", func(tx *gorm.DB) *gorm.DB { return tx.Where("id > ?", x) }, "name <> ?", "x").Where("id > ?", x))
+			},
+			func(h, root *gorm.DB) { var os []Owner; h.Find(&os) },
+			func(h, root *gorm.DB) { var os []Owner; h.Find(&os) }},
+		{"where-invalid-then-find",
+			// a condition value that cannot be built is the chain's own error, not the handle's
+			func(db *gorm.DB, x int) *gorm.DB { return db.WithContext(tagCtx(7)) },
+			func(h, root *gorm.DB) { var is []Item; var bad *[]uint; h.Where(bad).Find(&is) },
+			func(h, root *gorm.DB) { var is []Item; h.Where("age = ?", 1).Find(&is) }},
 		{"preload-find-twice",
 			func(db *gorm.DB, x int) *gorm.DB {
 				return sess(db.Preload("Pets", "name <> ?", "x").Where("id > ?", x))
